@@ -85,7 +85,7 @@ Lemma Inv_read s m g a w :
 Proof. intros [i1 _ _ _ _ _ _ _] H. now apply i1. Qed.
 
 Lemma Inv_pages s m g pages' g' :
-  Inv s m g -> m_pages m <= pages' <= m_max m ->
+  Inv s m g -> m_pages m <= pages' <= max_wasm_pages ->
   g_live g' = g_live g -> g_written g' = g_written g -> g_shadow g' = g_shadow g -> g_dead g' = g_dead g ->
   g_pages g' = pages' ->
   Inv s (mkMem pages' (m_max m) (m_data m)) g'.
